@@ -172,6 +172,28 @@ theorem refines_spec_inv {s s' : G} {l : Label} (hi : Inv s) (hx : excluded s l 
         simp only [specLabel, hp]
         refine step_of_eq (SpecStep.store _ k s.nextVal (by simp [abs, absKey, hp])) ?_
         rw [abs_bumpVal, abs_alloc hi]; congr 1
+  | lspLookup k =>
+    simp only [gstep] at hs
+    · cases hp : s.pool k with
+      | some e =>
+        rw [hp] at hs; cases hs
+        obtain ⟨he, _⟩ := hi.pool k e hp
+        have hnn := ent_refs_nonneg (hi.ent e he)
+        simp only [specLabel, hp]
+        cases hv : (s.ent e).value with
+        | none =>
+          refine step_of_eq (SpecStep.joinPending _ k _ ((abs_key_of_pool hp).trans (entryState_none hv))) ?_
+          rw [abs_bumpVal, abs_updEnt_mapped hi hp]; congr 1
+          rw [entryState_none (by exact hv)]; simp [toNat_succ hnn]
+        | some v =>
+          refine step_of_eq (SpecStep.joinLive _ k _ _ ((abs_key_of_pool hp).trans (entryState_some hv))) ?_
+          rw [abs_bumpVal, abs_updEnt_mapped hi hp]; congr 1
+          rw [entryState_some (by exact hv)]; simp [toNat_succ hnn]
+      | none =>
+        rw [hp] at hs; cases hs
+        simp only [specLabel, hp]
+        refine step_of_eq (SpecStep.store _ k s.nextVal (by simp [abs, absKey, hp])) ?_
+        rw [abs_bumpVal, abs_alloc hi]; congr 1
   | lsRead e v =>
     simp only [gstep] at hs
     split at hs
@@ -221,8 +243,10 @@ theorem refines_spec_inv {s s' : G} {l : Label} (hi : Inv s) (hx : excluded s l 
   | del2 e =>
     simp only [gstep] at hs
     split at hs
-    · split at hs <;> cases hs <;>
-        (rw [abs_updEnt_same s e _ (by simp [entryState])]; exact SpecStep.tau _)
+    · split at hs
+      · cases hs; rw [abs_updEnt_same s e _ (by simp [entryState])]; exact SpecStep.tau _
+      · split at hs <;> cases hs <;>
+          (rw [abs_updEnt_same s e _ (by simp [entryState])]; exact SpecStep.tau _)
     · cases hs
   | del3 e =>
     simp only [gstep] at hs
